@@ -30,6 +30,7 @@ def core_cfgs(tier, seed, want):
     if "zero_w" in want:
         add(n=3, m=1, s=1, p=1, w="diag", real_svd=1, zero_w=1)
     if "hist" in want:
+        add(n=3, m=2, s=1, p=2, w="diag", hist=4, maxpaths=24)
         add(n=3, m=2, s=1, p=1, w="diag", hist=1)
         add(n=3, m=2, s=2, p=1, w="none", hist=1, mrhs=1)
     if "faults" in want:
@@ -67,7 +68,7 @@ def core_cfgs(tier, seed, want):
 
 R_PROPS = {
     "C01": dict(prefixes=["C01"], want={"basic", "realsvd", "hist", "par"}, extra=[]),
-    "C02": dict(prefixes=["C02"], want={"basic", "realsvd", "hist", "par"}),
+    "C02": dict(prefixes=["C02"], want={"basic", "realsvd", "hist", "par", "order"}),
     "C03": dict(prefixes=["C03"], want={"basic", "realsvd", "hist", "par", "faults"}),
     "C10": dict(prefixes=["C10"], want={"hist", "faults", "par"}, twins=[("core", dict(n=3, m=2, s=1, p=1, w="diag", hist=1, twin=1, useed=2, vseed=5))], twin_prefixes=["C10.fresh"]),
 }
@@ -216,14 +217,39 @@ def routing_programs(tier, seed):
                         pos = k % (len(items) + 1)
                         items.insert(pos, "I")
                         progs.append(_prog(list(model_order), items, x_first=(k % 2 == 0), init_pos=("start" if k % 3 == 0 else "end")))
+    import random
+    rng = random.Random(1000 + seed)
     for ar in range(4, 11):
         names = NAMES[:ar]
         rot = (seed + ar) % ar
-        sub = names[rot:] + names[:rot]
-        dorder = sub[::-1]
-        progs.append(_prog(names, [_func(sub, dorder), "I"]))
+        variants = []
+        variants.append(names[rot:] + names[:rot])                       # rotation
+        variants.append(names[::-1])                                     # reversal
+        inner = names[1:-1]
+        variants.append([names[0]] + inner[::-1] + [names[-1]])          # endpoints fixed, inner reversed
+        variants.append([names[0]] + inner[1:] + inner[:1] + [names[-1]])  # endpoints fixed, inner rotated
+        variants.append(names[:2][::-1] + names[2:])                     # first two swapped
+        variants.append(names[:-2] + names[-2:][::-1])                   # last two swapped
+        nrand = 2 if tier == "quick" else 6
+        for _ in range(nrand):
+            v = names[:]
+            rng.shuffle(v)
+            variants.append(v)
+        if tier == "quick" and ar >= 7:
+            variants = variants[:3] + variants[-1:]
+        for sub in variants:
+            dorder = sub[:]
+            rng.shuffle(dorder)
+            progs.append(_prog(names, [_func(sub, dorder), "I"]))
+        # a function over a strict subset (with gaps) of a larger model parameter list
+        if ar <= 9:
+            big = NAMES[:ar + 1]
+            sub = [big[0]] + [big[-1]] + big[2:-1]            # skips big[1]; endpoints of the model list not at the ends
+            progs.append(_prog(big, [_func(sub, sub[::-1]), _func([big[1]])], x_first=True))
+            sub = [big[0]] + big[2:]                          # ascending with a gap
+            progs.append(_prog(big[::-1], [_func([big[1], big[0]], [big[0], big[1]]), _func(sub, sub)]))
         if tier == "thorough":
-            sub2 = sub[::2] + sub[1::2]
+            sub2 = names[::2] + names[1::2]
             progs.append(_prog(names[::-1], ["I", _func(sub2, sub2[::-1])]))
     return [("routing", dict(prog=p, expect_ok=1)) for p in progs]
 
@@ -340,7 +366,7 @@ def relpar_cfgs(tier, seed):
 R_PROPS.update({
     "C11": dict(prefixes=["C11", "SVD", "C01", "C02", "C03"], cfgs=lambda t, s: relpar_cfgs(t, s), want={"par"},
                 twins=[("core", dict(n=3, m=2, s=1, p=1, w="diag", eps="sym", par=1, twin=1, useed=2, vseed=5))], twin_prefixes=["C01", "C02", "C03"]),
-    "C06": dict(prefixes=["C06", "SVD"], cfgs=lambda t, s: relw_cfgs(t, s),
+    "C06": dict(prefixes=["C06", "SVD", "C02.weighted_data", "C02.residuals", "C01.closed_form"], want={"order"}, cfgs=lambda t, s: relw_cfgs(t, s),
                 twins=[("relw", dict(n=3, m=2, s=1, p=1, w="diag", kind="scale", twin=1, useed=2, vseed=5))]),
     "C07": dict(prefixes=["C07", "SVD"], cfgs=lambda t, s: relmrhs_cfgs(t, s), twins=[("relmrhs", dict(n=3, m=2, s=2, p=1, w="diag", kind="columns", twin=1, useed=2, vseed=5))]),
     "C12": dict(check_divisors=False, prefixes=["C12"], cfgs=lambda t, s: stats_cfgs(t, s, {"ident", "guard"}), twins=[("stats", dict(n=4, m=2, p=1, w="diag", twin=1))]),
@@ -352,6 +378,8 @@ R_PROPS.update({
     "C18": dict(prefixes=["C18", "C01.coefficients_present", "C02.residuals", "SVD"], want={"basic", "order", "par"}),
     "C09": dict(prefixes=["C09", "C03.jacobian", "C10.fresh"], want={"faults"}, twins=[("core", dict(n=3, m=2, s=1, p=1, w="diag", hist=2, twin=1, useed=2, vseed=5))], twin_prefixes=["C09"]),
 })
+# C04: coherence of the state the optimizer leaves behind = C01/C02/C10 after update histories (incl. re-applying earlier parameters)
+R_PROPS["C04"] = dict(prefixes=["C01", "C02", "C10", "SVD"], want={"hist"})
 R_PROPS["C01"]["prefixes"] = ["C01", "SVD"]
 R_PROPS["C01"]["extra"] = ["lin"]
 R_PROPS["C02"]["prefixes"] = ["C02", "SVD"]
